@@ -102,7 +102,8 @@ func atomsOf(d ldoc, major func(level int) bool) []atom {
 			case "t":
 				for _, row := range e.Rows {
 					for _, c := range row {
-						add("table-cell", c)
+						// a cell is rendered as markdown: a pipe inside it is escaped
+						add("table-cell", strings.ReplaceAll(c, "|", "\\|"))
 					}
 				}
 			case "i":
